@@ -124,7 +124,9 @@ def r2(chk):
     got = [show_toks(l.value.toks) if isinstance(l.value, Toks) else str(l) for l in lv]
     chk.expect("R2", "struct_pre_init/line", got == [exp], EXPAND, cl["line"], "var line", expected=exp, found=got)
     tail = [n for n in walk(fi.body) if n["k"] == "Call" and n["func"]["path"].endswith("TokenStream::from_iter")]
-    chk.expect("R2", "struct_pre_init/concat", len(tail) == 1, EXPAND, fi.line, "var lines are not concatenated in order", found=len(tail))
+    coll = [m_ for m_ in method_calls(fi.body, "collect")] + [m_ for m_ in method_calls(fi.body, "extend")]
+    reorder = [m_["method"] for m_ in method_calls(fi.body) if m_["method"] in ("rev", "sort", "sort_by", "sort_by_key", "skip", "take", "step_by", "filter", "dedup", "last", "next", "nth")]
+    chk.shape("R2", "struct_pre_init/concat", (len(tail) == 1 or len(coll) >= 1) and not reorder, bool(reorder), EXPAND, fi.line, what="var lines are not concatenated in order (all of them, in declaration order)", found={"from_iter": len(tail), "collect/extend": len(coll), "adaptors": reorder})
     # slot order in every body
     cells, info = impl_table(repo)
     qt = info["quote_trait"]
@@ -176,9 +178,9 @@ def r4(chk):
         # helpers of the body builders are evaluated in place; only the renderers below them are summarised
         return Evaluator(repo, IMPL_FILES, opaque={"quote_action", "struct_main_code_block", "enum_main_code_block"})
     tables = {}
-    for name in ("main_code_block", "main_code_block_ok"):
-        fi = repo.fn(EXPAND, name)
-        lv = explore(mk, lambda ev: ev.run_fn(fi, ev.sym_params(fi)))
+    from ..skeleton import body_builders
+    for name, fi, preset_ in body_builders(repo):
+        lv = explore(mk, lambda ev: ev.run_fn(fi, {**ev.sym_params(fi), **preset_}))
         if any(lf.unsupported for lf in lv):
             raise Inconclusive(f"{name} not evaluable: " + str([lf.unsupported for lf in lv if lf.unsupported][:1]))
         t = {}
